@@ -278,6 +278,35 @@ def polymorph (labelsFromBqm : Option (List Label)) (keep discard : Bool) (respV
     (cols, polyEnergy r.val p, if discard then true else penaltyOK reds r)
   (labels, out)
 
+/-! ## `expand_initial_state` -/
+
+/-- one entry of `bqm.info['reduction']` with what `expand_initial_state` reads of the BQM: the product
+    label and, for SPIN reductions, the auxiliary label with `bqm.adj[aux][u]`, `[v]`, `[product]` -/
+structure RedX where
+  u : Label
+  v : Label
+  p : Label
+  aux : Option (Label × Rat × Rat × Rat)
+
+def stVal (st : List (Label × Rat)) (l : Label) : Rat := ((st.find? (fun q => q.1 = l)).map (·.2)).getD 0
+
+/-- `initial_state[l] = x` on a dict -/
+def stSet (st : List (Label × Rat)) (l : Label) (x : Rat) : List (Label × Rat) := st.filter (fun q => q.1 ≠ l) ++ [(l, x)]
+
+/-- one iteration of the loop: the product variable gets the product of its factors; the auxiliary spin
+    gets `min({1, -1}, key=lambda val: en*val)` (iteration order of the frozenset: 1 first, so a tie gives 1) -/
+def expandStep (st : List (Label × Rat)) (d : RedX) : List (Label × Rat) :=
+  let uv := stVal st d.u * stVal st d.v
+  let st1 := stSet st d.p uv
+  match d.aux with
+  | none => st1
+  | some (a, cu, cv, cp) =>
+    let en := stVal st1 d.u * cu + stVal st1 d.v * cv + stVal st1 d.p * cp
+    stSet st1 a (if en > 0 then -1 else 1)
+
+/-- `expand_initial_state(bqm, initial_state)` -/
+def expandInitialState (reds : List RedX) (init : List (Label × Rat)) : List (Label × Rat) := reds.foldl expandStep init
+
 /-! ## row filters -/
 
 /-- `SampleSet.truncate(n, sorted_by=None)` keeps the first `n` rows -/
